@@ -31,9 +31,13 @@ type Combo struct {
 	StopMs    int    `json:"stop_ms"`
 	HookDelay bool   `json:"hook_delay"` // sleep between opening the connection and registering the session for abort
 	Seed      int    `json:"seed"`
+	Proc      bool   `json:"process_level,omitempty"` // the agent is its own OS process running run.Run, stopped with SIGTERM
 }
 
 func (cb Combo) id() string {
+	if cb.Proc {
+		return fmt.Sprintf("%s/%s/stop%d/process/%d", cb.State, cb.Load, cb.StopMs, cb.Seed)
+	}
 	return fmt.Sprintf("%s/%s/stop%d/hook%v/%d", cb.State, cb.Load, cb.StopMs, cb.HookDelay, cb.Seed)
 }
 
@@ -59,6 +63,10 @@ func buildCombos(c *vkit.Ctx) []Combo {
 							continue
 						}
 						out = append(out, Combo{State: st, Load: ld, StopMs: sp, HookDelay: hk, Seed: s})
+					}
+					// the same combination at process level (run.Run, SIGTERM, exit): one stop delay per (state, load) in quick, all in thorough
+					if !c.Quick() || sp == stops[(len(st)+len(ld)+int(c.Seed))%len(stops)] {
+						out = append(out, Combo{State: st, Load: ld, StopMs: sp, Seed: s, Proc: true})
 					}
 				}
 			}
@@ -150,6 +158,7 @@ func runCombo(c *vkit.Ctx, attempt int) (again bool) {
 		cb = buildCombos(c)[idx]
 	}
 	sc := scenarioOf(c, cb, idx)
+	sc.ProcessLevel = cb.Proc
 	runtime.GOMAXPROCS(sc.Procs)
 	vhook.Hook = func(point string) {
 		if point == "worker.session.beforeStore" && hookOn.Load() {
@@ -167,7 +176,7 @@ func runCombo(c *vkit.Ctx, attempt int) (again bool) {
 	var stuckDump string
 	clientPhase := ""
 	obs, err := e2e.Run(sc, c.WorkDir(), e2e.Hooks{Timeouts: &timeouts, Watchdog: limit, BeforeStop: func(gen int, a *e2e.Agent, ups []*upstream.Server) {
-		if gen != 0 {
+		if gen != 0 || cb.Proc { // at process level the harness cannot look at the agent's goroutines
 			return
 		}
 		buf := make([]byte, 1<<20)
@@ -197,6 +206,9 @@ func runCombo(c *vkit.Ctx, attempt int) (again bool) {
 		stuckDump = string(buf[:runtime.Stack(buf, true)])
 	}})
 	c.Eval(1)
+	if cb.Proc && obs != nil && len(obs.Gens) > 0 && obs.Gens[len(obs.Gens)-1].StuckDump != "" {
+		stuckDump = obs.Gens[len(obs.Gens)-1].StuckDump // taken with SIGQUIT from the agent process
+	}
 	if stuckDump != "" {
 		fr := vkit.StuckInAgent(stuckDump)
 		if len(fr) > 0 {
@@ -214,6 +226,19 @@ func runCombo(c *vkit.Ctx, attempt int) (again bool) {
 	}
 	g0 := obs.Gens[0]
 	ms := int(g0.StopDur / time.Millisecond)
+	if cb.Proc {
+		c.Event("process_level_stops", 1)
+		for gi, g := range obs.Gens {
+			if pe := g.ProcExit; pe != nil && pe.Signal != "terminated" && ((pe.Code != 0 && pe.Code != 66) || pe.Panicked) {
+				tail := pe.Tail
+				if len(tail) > 6 {
+					tail = tail[len(tail)-6:]
+				}
+				c.Violation("process-exit:"+cb.State+"/"+cb.Load, fmt.Sprintf("%s: gen %d: the agent process ended with status %d %s after SIGTERM; last output: %s",
+					cb.id(), gi, pe.Code, pe.Signal, strings.Join(tail, " | ")), map[string]any{"combo": cb})
+			}
+		}
+	}
 	c.Event("stops_measured", 1)
 	for _, ph := range strings.Split(strings.TrimSuffix(clientPhase, ","), ",") {
 		if ph != "" {
@@ -312,6 +337,7 @@ var anchors = []string{"run/run.go", "run/loader.go", "orchestrate/obykeyset/orc
 	"input/tcplistener/tcplinelistener.go"}
 
 func main() {
+	e2e.AgentProcMain() // never returns in an agent process
 	logger.SetLogLevel(logger.FatalLevel)
 	c := vkit.Start("C18", "fault_enumeration")
 	if c.Child != "" {
